@@ -299,6 +299,10 @@ class AsyncFIXConnection:
             journal: False - for retransmissions / gap fills of already sent
                      MsgSeqNums (journal keeps the original message)
         """
+        if self._socket_writer is None:
+            # disconnected while the sender was suspended (state was checked before)
+            raise FIXConnectionError("Connection is closed, nothing can be sent")
+
         encoded_msg = self._codec.encode(msg, self._session).encode("utf-8")
 
         msg_raw = encoded_msg.replace(b"\x01", b"|")
@@ -315,6 +319,13 @@ class AsyncFIXConnection:
                 encoded_msg, self._session, MessageDirection.OUTBOUND
             )
 
+        self._socket_writer.write(encoded_msg)
+        await self._socket_writer.drain()
+
+    async def _send_raw(self, encoded_msg: bytes):
+        """Writes already encoded retransmission to the socket (not journaled)."""
+        if self._socket_writer is None:
+            raise FIXConnectionError("Connection is closed, nothing can be sent")
         self._socket_writer.write(encoded_msg)
         await self._socket_writer.drain()
 
@@ -658,18 +669,26 @@ class AsyncFIXConnection:
         Args:
             resend_msg: ResendRequest(35=2) FIXMessage
         """
-        if self._connection_state != ConnectionState.RESENDREQ_AWAITING:
-            await self._state_set(ConnectionState.RESENDREQ_HANDLING)
-
         assert resend_msg.msg_type == FMsg.RESENDREQUEST
-        assert self._connection_state in {
-            ConnectionState.RESENDREQ_HANDLING,
-            ConnectionState.RESENDREQ_AWAITING,
-        }
 
+        # invalid request (missing / not numeric) must not change anything
         begin_seq_no = int(resend_msg[FTag.BeginSeqNo])
         end_seq_no = int(resend_msg[FTag.EndSeqNo])
 
+        if self._connection_state != ConnectionState.RESENDREQ_AWAITING:
+            await self._state_set(ConnectionState.RESENDREQ_HANDLING)
+
+        try:
+            await self._resend_range(resend_msg, begin_seq_no, end_seq_no)
+        finally:
+            # restore only own state (connection may be closed meanwhile)
+            if self._connection_state == ConnectionState.RESENDREQ_HANDLING:
+                await self._state_set(ConnectionState.ACTIVE)
+
+    async def _resend_range(
+        self, resend_msg: FIXMessage, begin_seq_no: int, end_seq_no: int
+    ):
+        """Writes retransmissions / gap fills for ResendRequest(35=2)."""
         # Only already sent MsgSeqNums can be resent, the outgoing MsgSeqNum counter
         #   and the journal (original messages) are left untouched
         last_seq_no = self._session.next_num_out - 1
@@ -702,12 +721,21 @@ class AsyncFIXConnection:
                 msg_seq_num = int(replay_msg[FTag.MsgSeqNum])
 
                 is_sess_msg = replay_msg[FTag.MsgType] in noreply_msgs
-                if (
+                is_replayed = not (
                     is_sess_msg
                     or msg_seq_num < gap_fill_begin
                     or msg_seq_num > end_seq_no
-                    or not await self.should_replay(replay_msg)
-                ):
+                )
+                if is_replayed:
+                    try:
+                        is_replayed = await self.should_replay(replay_msg)
+                    except asyncio.CancelledError:
+                        raise
+                    except Exception:
+                        # failed callback must not cut the reply short
+                        self.log.exception("should_replay() failed, gap filled")
+                        is_replayed = False
+                if not is_replayed:
                     # will be covered by gap fill
                     continue
 
@@ -725,16 +753,20 @@ class AsyncFIXConnection:
                 del replay_msg[FTag.SenderCompID]
                 del replay_msg[FTag.TargetCompID]
                 del replay_msg[FTag.CheckSum]
-                await self._send_encoded(replay_msg, journal=False)
+                try:
+                    await self._send_encoded(replay_msg, journal=False)
+                except FIXMessageError:
+                    # Message can't be rebuilt from its decoded form (e.g. repeating
+                    #   group which is not known by protocol), resend journaled fields
+                    await self._send_raw(
+                        self._codec.reframe_possdup(enc_msg).encode("utf-8")
+                    )
 
                 gap_fill_begin = msg_seq_num + 1
 
             # Remainder is not available or not replayable
             if gap_fill_begin <= end_seq_no:
                 await self._send_gap_fill(gap_fill_begin, end_seq_no + 1)
-
-        if self._connection_state != ConnectionState.RESENDREQ_AWAITING:
-            await self._state_set(ConnectionState.ACTIVE)
 
     async def _send_gap_fill(self, msg_seq_num: int, new_seq_no: int):
         """Sends SequenceReset(35=4)-GapFill for already sent MsgSeqNums."""
